@@ -116,6 +116,17 @@ def fromTagged (s : List T) : Option Pat :=
 
 def fromString (s : String) : Option Pat := fromTagged (s.toList.map tag)
 
+/-! ### `Clock.wait_until`
+
+`while not pattern.match(*self._hour_minute()): if not self.wait(): return` — the wall clock is
+read before every tick, whatever it reads then (minute after minute, several ticks within one
+minute, a clock that has been stepped in between).  `readings` are the successive results of
+`_hour_minute()`; the result is the number of ticks the call waits for before it returns because
+of a match, `none` if none of the readings matches. -/
+def waitUntil (p : Pat) : List (Nat × Nat) → Option Nat
+  | [] => none
+  | (h, m) :: rest => if p.matches h m then some 0 else (waitUntil p rest).map (· + 1)
+
 /-! ### the VM's `TIME_PATTERN` instruction, with object identity
 
 Pattern objects live in a heap; the program's instructions (and macros) refer to them by
